@@ -33,6 +33,7 @@ type instrReport struct {
 	Timers      []string          `json:"timers"`
 	CLI         []string          `json:"cli_redirected"`
 	CLIMain     bool              `json:"cli_main"`
+	SyncLib     int               `json:"sync_lib"`
 }
 
 type build struct {
